@@ -176,6 +176,7 @@ def make_disk(w, data):
     if w.get("target_pre"):
         disk.put(w["output_name"], PRE)
     disk.plans[w["output_name"]] = seams.WritePlan.from_faults(w.get("output_faults"))
+    disk.out_key = disk.resolve(w["output_name"])  # (the name may stop being a link during the run)
     return disk
 
 
@@ -191,8 +192,16 @@ def _outcome(disk, w, status, err, exc=None):
             exc.__context__.__traceback__ = None
     gc.collect()
     return {"status": status, "stderr": err, "exc": exc, "bytes": disk.get(w["output_name"]), "tree": disk.tree(),
-            "opened_w": len(disk.events_for(w["output_name"], ("open_w",))),
-            "fired": list(disk.plans[w["output_name"]].fired), "handles": len(disk.open_handles())}
+            "opened_w": len([e for e in disk.events if e["p"] == disk.out_key and e["e"] == "open_w"]),
+            "fired": list(dict.__getitem__(disk.plans, disk.out_key).fired), "handles": len(disk.open_handles())}
+
+
+def _s(exc):
+    """str(exc), also for an exception whose own __str__ raises (then the interpreter prints a placeholder)."""
+    try:
+        return str(exc)
+    except Exception:  # noqa: BLE001
+        return "<exception str() failed>"
 
 
 def run_api(w, data):
@@ -211,7 +220,7 @@ def run_api(w, data):
                                 allow_changes=bool(w.get("allow_changes")), fmt=w.get("outfmt"))
         except Exception as e:  # noqa: BLE001
             exc = e
-    return _outcome(disk, w, 0 if exc is None else 1, "" if exc is None else f"{type(exc).__name__}: {exc}", exc)
+    return _outcome(disk, w, 0 if exc is None else 1, "" if exc is None else f"{type(exc).__name__}: {_s(exc)}", exc)
 
 
 def run_main(w, data):
@@ -298,7 +307,7 @@ def compare(w, api, other, label):
         raise RuntimeError(f"HARNESS: {label}: {other['harness']}: {other['stderr']}")
     if other["status"] == 0:
         if not ok_api:
-            out.append(_v("success_reported_but_api_fails", f"{label} exits 0 but the API calls raise {et}: {api['exc']}", w, f"{label}/{et}"))
+            out.append(_v("success_reported_but_api_fails", f"{label} exits 0 but the API calls raise {et}: {_s(api['exc'])}", w, f"{label}/{et}"))
         elif other["bytes"] != api["bytes"]:
             out.append(_v("different_content", f"{label} exits 0 but wrote different bytes than the API "
                           f"({None if other['bytes'] is None else len(other['bytes'])} vs {None if api['bytes'] is None else len(api['bytes'])})", w, label))
@@ -441,10 +450,17 @@ def gen_workload(rng, tier):
         # the output name is a symbolic link to a file elsewhere (existing or not): writing goes through the link
         w["file_symlinks"] = {w["output_name"]: "store/real_" + w["output_name"]}
         w["target_pre"] = False
+    if rng.random() < 0.05:
+        # a file read as the wrong format: the loaders quote what they found instead (here: text full of braces)
+        w["input_file"] = rng.choice(["CuSCN_molecule.json", "LiCl_STO4G_Gaussian_input.json", "Hydroxyl_radical_molecule.json"])
+        w["input_name"] = rng.choice(["x.json", "in.dat", w["input_file"]])
+        w["infmt"] = rng.choice(["fcidump", "wfn", "molden", "mol2", "wfx", "fchk"])
+        w["many"] = False
+        w.pop("neighbours", None)
     if rng.random() < 0.04:
         w["input_missing"] = True  # the operating system refuses to open the input: the API raises its OSError
     r = rng.random()
-    data0 = raw_input(f)
+    data0 = raw_input(w["input_file"])
     if r < 0.35:
         w["input_faults"] = [faults.random_fault(rng, data0, "crash_prefix")]
     elif r < 0.55:
